@@ -23,7 +23,7 @@ STREAM = "c10"
 RUN_TIMEOUT_S = 600.0
 TIERS = {
     "quick": {"runs": 1200, "wall_s": 260, "batch": 400, "det_same": 6, "det_fresh": 1},
-    "thorough": {"runs": 5000, "wall_s": 3000, "batch": 500, "det_same": 16, "det_fresh": 2},
+    "thorough": {"runs": 30000, "wall_s": 3000, "batch": 1000, "det_same": 16, "det_fresh": 2},
 }
 RULE = ("Each run is one glbfloor instance: a die <=12x12 lattice units with 0-2 blockages refined by "
         "split_refinable_regions(r, n<=12) or initial_grid, a netlist of 3-6 modules mixing soft, hard (1-3 rectangles), "
@@ -333,7 +333,8 @@ def _result(case, viol, hist, probes, fired, configured, nontrivial, outcome, so
                   outcome.split(" ")[0]])
     return {"violations": viol, "steps": solver.nsolve, "faults_fired": fired, "faults_configured": configured, "probes": probes,
             "ops": {"glbfloor": 1, "solves": solver.nsolve}, "signature": sig, "nontrivial": nontrivial,
-            "digest": digest([hist, [(v["clause"], v["key"]) for v in viol], solver.log]),
+            "digest": digest([hist, [(v["clause"], v["key"]) for v in viol],
+                              [(x["solve"], x["rc"], x["had_results"], x.get("fault")) for x in solver.log]]),
             "history": hist if case.get("want_history") else None,
             "sample": {"run": case.get("run"), "modules": len(case["net"]["modules"]), "refine": case["refine"],
                        "threshold": case["threshold"], "alpha": case["alpha"], "max_iter": case["max_iter"],
